@@ -28,6 +28,14 @@ def rescale_box(
     min = jnp.broadcast_to(min, box.shape)
     max = jnp.broadcast_to(max, box.shape)
 
+    assert jnp.all((min == box.low)[jnp.isinf(min) | jnp.isinf(box.low)]), (
+        "unbounded components cannot be rescaled: the new lower bound must equal "
+        "the original one wherever either is infinite"
+    )
+    assert jnp.all((max == box.high)[jnp.isinf(max) | jnp.isinf(box.high)]), (
+        "unbounded components cannot be rescaled: the new upper bound must equal "
+        "the original one wherever either is infinite"
+    )
     assert jnp.all(min <= max)
     assert jnp.all(box.low <= box.high)
 
